@@ -301,4 +301,28 @@ def features_of(decl_chain, types=None):
             if f["kind"] == "array_field" and f["size"] is None and k + 1 < len(fs) and fs[k + 1]["kind"] == "padding_field":
                 if not any(g["kind"] in ("size_field", "count_field") and g["field_id"] == f["id"] for g in fs):
                     tags["unsized_padded_array"] = True
+            # a struct of unknown size (nothing delimits it: it extends to the end of its span) that is not the last
+            # field: only the C++ back end gives it "all but the trailing static fields"; the reference decoder of
+            # the model reads structs greedily, so on these layouts only reference ENCODINGS can be compared
+            if f["kind"] == "typedef_field" and not f.get("cond") and k + 1 < len(fs) and types is not None and \
+                    unknown_size(types, types.decls.get(f.get("type_id"))):
+                tags["unsized_struct_not_last"] = True
     return tags
+
+
+def unknown_size(types, decl, depth=0):
+    """analyzer::Size::Unknown for a struct: some field is delimited by nothing but the end of the input"""
+    if not decl or decl.get("kind") not in ("struct_declaration", "packet_declaration") or depth > 16:
+        return False
+    fs = [f for d in types.parent_chain(decl) for f in d.get("fields", [])]
+    for k, f in enumerate(fs):
+        if f["kind"] in ("payload_field", "body_field"):
+            if not any(g["kind"] == "size_field" and g["field_id"] in ("_payload_", "_body_") for g in fs):
+                return True
+        if f["kind"] == "array_field" and f.get("size") is None:
+            padded = k + 1 < len(fs) and fs[k + 1]["kind"] == "padding_field"
+            if not padded and not any(g["kind"] in ("size_field", "count_field") and g["field_id"] == f["id"] for g in fs):
+                return True
+        if f["kind"] == "typedef_field" and not f.get("cond") and unknown_size(types, types.decls.get(f.get("type_id")), depth + 1):
+            return True
+    return False
